@@ -547,18 +547,34 @@ T_KA = G.Table([
 ])
 
 
+def o_late(ad, a, b, c):
+    return [("late", a % 4)]
+
+
+def o_late_tick(ad, a, b, c):
+    # one timer pass run late, the next one on time, then a PINGRESP: two PINGREQs can be outstanding at once
+    return [("late", 1 + a % 3), ("fire", 1), ("late", 0), ("fire", 1)] + ([("rx", ad, "PINGRESP")] if b % 4 else [])
+
+
+# the same with a reactor that is sometimes late in getting round to its delayed calls
+T_KA_LATE = G.Table(T_KA.rows + [(6, o_late), (8, o_late_tick)])
+
+
 class C15(SessionProp):
     id = "C15"
     monitor = staticmethod(M.mon_c15)
     table = T_KA
+    tables = [T_KA, T_KA_LATE]
     max_words = 30
     tail = (("advance", 12),)
     pre_kwargs = dict(keepalives=(0, 1, 2, 5, 7, 60, 65535, 3), connack=(True, True, True, True, False))
     rule = ("Histories with keepalive in {0,1,2,3,5,7,60,65535}: PINGRESP in time, exactly at the deadline, late, "
             "never, twice or unsolicited (also with keepalive 0), other traffic, runs of up to 30 answered periods, "
-            "loss and reconnect with another keepalive. Oracle over the time-stamped wire log: from CONNACK to the "
+            "loss and reconnect with another keepalive; in half of the histories the reactor runs some timer passes up to "
+            "0.3 s late. Oracle over the time-stamped wire log: from CONNACK to the "
             "end of the connection consecutive PINGREQs <= k apart; an unanswered PINGREQ leads to abort no later "
-            "than k after it; if every PINGREQ is answered before its deadline no timer closes the connection; "
+            "than k after it; a timer closes the connection only when some PINGREQ (PINGRESPs answer the oldest "
+            "outstanding one) has gone k seconds without its answer; "
             "keepalive 0 never pings; nothing after the loss; no exception. Non-trivial = >= 3 periods, a late/"
             "double/unsolicited response, or a reconnect.")
 
